@@ -356,18 +356,26 @@ class ConeTreeBuilder:
         Gq = [[Fr(float(x)) for x in row] for row in G]
         D = _fdet(Gq[0], Gq[1], Gq[2])
         Gf = G / np.linalg.norm(G, axis=1)[:, None]
-        eps = 1e-13
-        while True:
-            g2 = np.array(g, float)
-            for k in zero:
-                g2 = g2 - eps * Gf[k]
-            gq = [Fr(float(x)) for x in g2]
-            d = [_fdet(gq, Gq[1], Gq[2]) * D, _fdet(Gq[0], gq, Gq[2]) * D, _fdet(Gq[0], Gq[1], gq) * D]
-            if all(d[k] <= 0 for k in zero):
+        g = np.array(g, float)
+        g = g / np.linalg.norm(g)
+        found = False
+        for K in (40, 46, 52):
+            eps = 4.0 / float(1 << K)
+            while eps <= 1e-8 and not found:
+                g2 = g.copy()
+                for k in zero:
+                    g2 = g2 - eps * Gf[k]
+                # integer coordinates (only the direction matters): keeps the checker's exact arithmetic short
+                g2 = np.round(g2 * float(1 << K))
+                gq = [Fr(int(x)) for x in g2]
+                d = [_fdet(gq, Gq[1], Gq[2]) * D, _fdet(Gq[0], gq, Gq[2]) * D, _fdet(Gq[0], Gq[1], gq) * D]
+                if all(d[k] <= 0 for k in zero):
+                    found = True
+                eps *= 10.0
+            if found:
                 break
-            eps *= 10.0
-            if eps > 1e-8:
-                raise TreeFail("could not push a split direction across a cone face")
+        if not found:
+            raise TreeFail("could not push a split direction across a cone face")
         if not any(x > 0 for x in d):
             raise TreeFail("split direction not in front of the cone")
         kids = []
